@@ -1339,7 +1339,12 @@ impl ASN1Value {
                 }
                 Ok(())
             }
-            (ASN1Type::Integer(i), ASN1Value::ElsewhereDeclaredValue { identifier, .. }) => {
+            // An identifier that is not a named number is a value reference (handled below)
+            (ASN1Type::Integer(i), ASN1Value::ElsewhereDeclaredValue { identifier, .. })
+                if i.distinguished_values
+                    .as_ref()
+                    .is_some_and(|dist_vals| dist_vals.iter().any(|d| &d.name == identifier)) =>
+            {
                 if let Some(value) = i.distinguished_values.as_ref().and_then(|dist_vals| {
                     dist_vals
                         .iter()
@@ -1368,7 +1373,12 @@ impl ASN1Value {
                 }
                 Ok(())
             }
-            (ASN1Type::Enumerated(_), ASN1Value::ElsewhereDeclaredValue { identifier, .. }) => {
+            // An identifier that is not an enumeral is a value reference (handled below)
+            (ASN1Type::Enumerated(_), ASN1Value::ElsewhereDeclaredValue { identifier, .. })
+                if tlds
+                    .iter()
+                    .any(|(_, tld)| tld.has_enum_value(None, identifier)) =>
+            {
                 if let Some((_, tld)) = tlds
                     .iter()
                     .find(|(_, tld)| tld.has_enum_value(None, identifier))
